@@ -278,7 +278,7 @@ func thorough() bool { return os.Getenv("VERIF_TIER") == "thorough" }
 
 func tierBudget() budgetT {
 	if thorough() {
-		return budgetT{all: true, maxNodes: 1 << 30, maxFmt: 120, fmtsPer: 7, maxPub: 4, pubEvery: 1, wholeMax: 200000}
+		return budgetT{all: true, maxNodes: 1 << 30, maxFmt: 120, fmtsPer: 7, maxPub: 4, pubEvery: 1, wholeMax: 50000}
 	}
 	return budgetT{maxNodes: 200, maxFmt: 16, fmtsPer: 2, maxPub: 1, pubEvery: 1, wholeMax: 4000}
 }
@@ -588,7 +588,14 @@ func (c *checker) check(b budgetT, seed uint64) {
 		if off == 0 {
 			in["fpaths"], in["whole"], in["pub"] = fpaths, whole, pub
 		}
-		out, err := stream.Next(in)
+		work := end - off + 1
+		if off == 0 {
+			work += len(fpaths)*4 + len(pub)
+			if whole {
+				work += len(tr.All) / 4
+			}
+		}
+		out, err := stream.NextW(in, work)
 		if err != nil {
 			res.Failf("harness:jq-evaluation-failed", "%v", err)
 			return
